@@ -285,8 +285,7 @@ fn parse_assignment_known_target(
     target: WithTokenSpan<Target>,
     postponed: bool,
 ) -> ParseResult<ConcurrentStatement> {
-    // @TODO guarded
-    let guarded = false;
+    let guarded = ctx.stream.skip_if_kind(Guarded);
     let delay_mechanism = parse_delay_mechanism(ctx)?;
     let rhs = parse_signal_assignment_right_hand(ctx)?;
     Ok(ConcurrentStatement::Assignment(
@@ -325,8 +324,7 @@ fn parse_selected_signal_assignment(
     let is_matching = ctx.stream.pop_if_kind(Que).is_some();
     let target = parse_target(ctx)?;
     ctx.stream.expect_kind(LTE)?;
-    // @TODO guarded
-    let guarded = false;
+    let guarded = ctx.stream.skip_if_kind(Guarded);
     let delay_mechanism = parse_delay_mechanism(ctx)?;
     let rhs = AssignmentRightHand::Selected(parse_selection(
         ctx,
